@@ -1,10 +1,10 @@
 """C13 - assembly output is a pure function of its inputs.
 
 Explicit-state search over assemble-call histories in ONE process (K2): every history of depth <= 2
-(thorough 3) over 22 actions (stl programs at w=64/32, a no-stl program at w=16, werror on, a parse
+(thorough 3) over 23 actions (stl programs at w=64/32, a no-stl program at w=16, werror on, a parse
 failure inside nested namespaces, a lexing error, an unknown macro after the stl cache was filled, a
 macro-recursion overflow with max_recursion_depth=5, runs with max_recursion_depth=2000 and 4000, programs behind a 1- or 2-file stl prefix with one to three user files, a
-rep-heavy program, a program that raises a syntax warning (with and without warnings-as-errors, one fixed path), the stl under other short names, other user short names, another directory) is run
+rep-heavy program, a program with 60 000 labels (a multi-megabyte debug file), a program that raises a syntax warning (with and without warnings-as-errors, one fixed path), the stl under other short names, other user short names, another directory) is run
 in a forked child of a parent that has imported flipjump but never assembled; then every probe is
 assembled and its .fjm and .fjd bytes are compared with the bytes produced by a FRESH interpreter
 process. The real process globals (parse-cache keys, namespace stack, error flags, recursion limit)
@@ -33,6 +33,7 @@ CONSTS_FAIL = 'LEN = 7\nstl.startup\nno_such_macro LEN\nstl.loop\n'
 DEEP_OK = 'stl.startup\n;x' + '+1' * 400 + '\nx:\nstl.loop\n'      # well inside the default python recursion budget of an assemble
 DEEP_FAIL = 'stl.startup\n;x' + '+1' * 700 + '\nx:\nstl.loop\n'    # well outside it: fails in a fresh process, must fail the same way after any history
 WARN = 'def m x, unused_p {\n  ;x\n}\nm 0, 0\n'   # raises a syntax warning (an unused macro parameter): refused only when warnings are errors
+BIGLABELS = 'def m @ a_rather_long_local_label_name_for_the_debug_table {\n  a_rather_long_local_label_name_for_the_debug_table:\n  ;\n}\nrep(60000, i) m\n'  # > 4 MiB of label json
 PREFIXED = 'pa:\n  ;pb\npb:\n  pa;pa\n'
 USES_NAMES = 'stl.startup\n;LEN\nLEN:\n;VAL\nVAL:\nstl.loop\n'
 
@@ -55,6 +56,7 @@ ACTIONS = [
     ('defines-constants32', CONSTS, dict(w=32, use_stl=True)),
     ('defines-constants-then-fails', CONSTS_FAIL, dict(w=64, use_stl=True)),
     ('depth-4000', NOSTL, dict(w=16, use_stl=False, max_recursion_depth=4000)),
+    ('sixty-thousand-labels', BIGLABELS, dict(w=64, use_stl=False)),
     ('warning-program', WARN, dict(w=64, use_stl=False, filename='warn.fj')),
     ('warning-program-werror', WARN, dict(w=64, use_stl=False, werror=True, filename='warn.fj')),
     ('stl-prefix-1-one-user-file', NOSTL, dict(w=64, use_stl=True, stl_prefix=1)),
